@@ -704,6 +704,9 @@ func (g *Gen) stmt(depth int) []Stmt {
 		// break must be the last statement of its block: wrap in `if c then break end`
 		return []Stmt{&If{C: g.cond(1), Then: []Stmt{&Break{}}}}
 	case 14:
+		if g.R.Chance(25) {
+			return g.gotoBackwardCaptured(d)
+		}
 		return g.gotoShape(depth, d)
 	case 15:
 		return g.pcallShape(depth, d)
@@ -759,6 +762,9 @@ func (g *Gen) stmt(depth int) []Stmt {
 	case 36:
 		return g.operandMatrix(d)
 	case 37:
+		if g.R.Chance(25) {
+			return g.goCallHandler(d)
+		}
 		return g.parenGoCall(d)
 	case 38:
 		return g.argCaptured(d)
@@ -771,11 +777,13 @@ func (g *Gen) stmt(depth int) []Stmt {
 		}
 		return g.nestedBlockClosure(d)
 	case 40:
-		switch g.R.Intn(3) {
+		switch g.R.Intn(4) {
 		case 0:
 			return g.goCallHandler(d)
 		case 1:
 			return g.handlerReinstall(d)
+		case 2:
+			return g.mixedTypeCompare(d)
 		}
 		return g.nilCompareHandlers(d)
 	case 41:
